@@ -101,7 +101,7 @@ pub fn state_name(s: StreamState) -> String {
 fn resolve_id(r: &IdRef) -> i32 {
     match r {
         IdRef::Raw(i) => *i,
-        IdRef::Token(t) => world::with(|w| w.ids_by_token.get(t).copied().unwrap_or(0)),
+        IdRef::Token(t) => world::with(|w| w.ids_by_token.get(t).or_else(|| w.srv_ids_by_token.get(t)).copied().unwrap_or(0)),
     }
 }
 
@@ -266,9 +266,11 @@ pub async fn run_client(client: usize, script: ClientScript, ldap: Ldap, opts: C
                     Some(r) => r,
                     None => Ret::Cancelled,
                 };
-                let last_id = l.last_id();
+                let last_id = if matches!(op, OpSpec::Search(_)) { 0 } else { l.last_id() };
                 world::with(|w| {
-                    w.ids_by_token.insert(token.clone(), last_id);
+                    if last_id != 0 {
+                        w.ids_by_token.insert(token.clone(), last_id);
+                    }
                     w.ev(EvKind::Return { client, step: ix, token: token.clone(), ret, last_id });
                 });
             }
